@@ -123,7 +123,7 @@ ReplaceImport ==
 \* the history.  Targets may be dead (a dangling reference must make encode loud).
 SiteKinds == CASE Camp = "f" -> {"call"}
                [] Camp = "g" -> {"global_get"}
-               [] Camp = "m" -> {"mem_load", "atomic_rmw"}
+               [] Camp = "m" -> {"mem_load", "atomic_rmw", "mem_copy2"}   \* mem_copy2: memory.copy into it from another memory
 
 InjectSite ==
     /\ Observer
